@@ -190,6 +190,74 @@ Theorem C09_resolve_then_ops_commute : forall c ops s,
 Proof. exact resolve_then_history_commute. Qed.
 Print Assumptions C09_resolve_then_ops_commute.
 
+(* 8b. resolution never mixes frequencies.  span_make / span_resolve are assembled from the statement shapes regenerated
+       from Span.__init__ / Span.resolve (gen_span_init_start/end/needs/checks_when_resolved, gen_span_resolve).
+       For EVERY span (concrete, half-open, fully open; any offsets, step, flag) and EVERY context, resolve either rejects
+       with IrisPieError -- exactly when the two resolved ends have different frequencies -- or returns a resolved span
+       whose two ends are periods of one frequency *)
+Theorem C09_resolve_rejects_or_single_frequency : forall c s,
+  match span_resolve c s with
+  | Err e => e = ErrFreq /\ ep_freq_in c (sp_start s) <> ep_freq_in c (sp_end s)
+  | Ok r => sp_needs r = false /\ sp_step r = sp_step s /\
+            sp_start r = ep_resolve c (sp_start s) /\ sp_end r = ep_resolve c (sp_end s) /\
+            exists p q, sp_start r = At p /\ sp_end r = At q /\ p_freq p = p_freq q /\
+                        p_freq p = ep_freq_in c (sp_start s) /\ p_freq q = ep_freq_in c (sp_end s)
+  end.
+Proof. exact resolve_rejects_or_single_frequency. Qed.
+Print Assumptions C09_resolve_rejects_or_single_frequency.
+
+Theorem C09_resolve_accepts_iff_one_frequency : forall c s,
+  (ep_freq_in c (sp_start s) = ep_freq_in c (sp_end s) ->
+     span_resolve c s = Ok (mkSpan (ep_resolve c (sp_start s)) (ep_resolve c (sp_end s)) (sp_step s) false)) /\
+  (ep_freq_in c (sp_start s) <> ep_freq_in c (sp_end s) -> span_resolve c s = Err ErrFreq).
+Proof. exact resolve_accepts_iff_one_frequency. Qed.
+Print Assumptions C09_resolve_accepts_iff_one_frequency.
+
+(* the call shapes: one fixed end of frequency F, the open side taken from a context date of another frequency; a fully
+   open span against a context whose two dates differ in frequency *)
+Theorem C09_resolve_half_open_mixed_rejected : forall c p (b : bool) o step needs,
+  p_freq (if b then c_start c else c_end c) <> p_freq p ->
+  span_resolve c (mkSpan (At p) (Ctx b o) step needs) = Err ErrFreq /\
+  span_resolve c (mkSpan (Ctx b o) (At p) step needs) = Err ErrFreq.
+Proof. exact resolve_half_open_mixed_rejected. Qed.
+Print Assumptions C09_resolve_half_open_mixed_rejected.
+
+Theorem C09_resolve_open_mixed_context_rejected : forall c b o o' step needs,
+  p_freq (c_start c) <> p_freq (c_end c) ->
+  span_resolve c (mkSpan (Ctx b o) (Ctx (negb b) o') step needs) = Err ErrFreq.
+Proof. exact resolve_open_mixed_context_rejected. Qed.
+Print Assumptions C09_resolve_open_mixed_context_rejected.
+
+Theorem C09_resolved_listing_one_frequency : forall c s r l,
+  span_resolve c s = Ok r -> span_iter r = Ok l -> forall x, In x l -> p_freq x = ep_freq_in c (sp_start s) /\
+                                                                       p_freq x = ep_freq_in c (sp_end s).
+Proof. exact resolved_listing_one_frequency. Qed.
+Print Assumptions C09_resolved_listing_one_frequency.
+
+(* histories: after ANY sequence of public operations (in-place reverse/shift/shift_start/shift_end, + - >> << reversed()
+   and resolve against contexts of ANY frequencies; a raising operation leaves the span unchanged) applied to a span the
+   constructor accepted, a span that claims to be resolved has two period ends of one frequency and lists that frequency *)
+Theorem C09_every_history_single_frequency : forall l a b c s, span_make a b c = Ok s ->
+  let t := run_public s l in
+  span_wf t /\
+  (sp_needs t = false -> exists p q, sp_start t = At p /\ sp_end t = At q /\ p_freq p = p_freq q /\
+                                    forall xs x, span_iter t = Ok xs -> In x xs -> p_freq x = p_freq p).
+Proof. exact every_history_single_frequency. Qed.
+Print Assumptions C09_every_history_single_frequency.
+
+(* the constructor assembled from the regenerated fragments: defaults in the direction of the step, needs_resolve, check *)
+Theorem C09_span_constructor_shape : forall a b step, span_make a b step =
+  let s := match a with Some e => e | None => Ctx (step >? 0) 0 end in
+  let e := match b with Some e => e | None => Ctx (negb (step >? 0)) 0 end in
+  let needs := ep_needs s || ep_needs e in
+  if needs then Ok (mkSpan s e step true)
+  else match s, e with
+       | At p, At q => if check_periods p (Some q) then Ok (mkSpan s e step false) else Err ErrFreq
+       | _, _ => Err ErrFreq
+       end.
+Proof. exact span_make_unfold. Qed.
+Print Assumptions C09_span_constructor_shape.
+
 (* what the constructor establishes is preserved by every history of in-place mutations *)
 Theorem C09_history_wellformed : forall ops a b c s, span_make a b c = Ok s -> span_wf (run_ops s ops).
 Proof. exact history_wellformed. Qed.
@@ -285,3 +353,20 @@ Example C09_hypotheses_satisfiable :
                span_iter r = Ok [mkP 12 24251; mkP 12 24250; mkP 12 24249; mkP 12 24248; mkP 12 24247; mkP 12 24246;
                                  mkP 12 24245; mkP 12 24244; mkP 12 24243]).
 Proof. exact hypotheses_satisfiable. Qed.
+
+(* non-vacuity of the resolution theorems: quarterly start + open end against a monthly context is rejected, against a
+   quarterly context it lists quarters; a fully open backward span against a mixed context is rejected; a history with a
+   rejected and an accepted resolution *)
+Example C09_resolve_examples :
+  (exists s, span_make (Some (At (mkP 4 8080))) None 1 = Ok s /\ sp_needs s = true /\
+     span_resolve (mkCtx (mkP 12 24240) (mkP 12 24246)) s = Err ErrFreq /\
+     (exists r, span_resolve (mkCtx (mkP 4 8078) (mkP 4 8083)) s = Ok r /\
+                span_iter r = Ok [mkP 4 8080; mkP 4 8081; mkP 4 8082; mkP 4 8083]) /\
+     (exists r, run_public s [PMut (OShiftEnd (-1)); PResolve (mkCtx (mkP 12 24240) (mkP 12 24246)); PMut OReverse;
+                              PResolve (mkCtx (mkP 4 8078) (mkP 4 8083))] = r /\
+                span_iter r = Ok [mkP 4 8082; mkP 4 8081; mkP 4 8080])) /\
+  (exists s, span_make None None (-2) = Ok s /\
+     span_resolve (mkCtx (mkP 4 8078) (mkP 12 24246)) s = Err ErrFreq /\
+     exists r, span_resolve (mkCtx (mkP 12 24240) (mkP 12 24246)) s = Ok r /\
+               span_iter r = Ok [mkP 12 24246; mkP 12 24244; mkP 12 24242; mkP 12 24240]).
+Proof. exact resolve_examples. Qed.
